@@ -202,7 +202,17 @@ func c03Finder(run *Run, j *histJob) {
 			return
 		}
 	}
-	explained := sp.Oneway || sp.hasEvent("downreset") || sp.hasVerdict("term")
+	// an upstream reset after the response to the client has started: the proxy resets the client stream - and must then finish
+	// the request (clean it) as for any other reset
+	if sp.ResetUpOn != "" && ri.Headers >= 1 && !ri.Complete && (r.Gauge != 0 || r.Active != 0) {
+		state := "the worker has returned"
+		if !r.Done {
+			state = "the worker is still parked"
+		}
+		run.Fail("C03:stream-never-cleaned-after-reset-mid-response", fmt.Sprintf("the upstream stream was reset after the response headers had been written downstream (client stream reset by the proxy: %v); %s, yet the request never reached a terminal outcome: active gauge %+d, active streams %d", ri.Reset, state, r.Gauge, r.Active), replay)
+		return
+	}
+	explained := sp.Oneway || sp.hasEvent("downreset") || sp.hasVerdict("term") || (sp.ResetUpOn != "" && ri.Reset)
 	if !ri.Complete && !explained {
 		sig := "C03:silence"
 		what := "no reply although the client did not disconnect and no filter terminated the stream"
@@ -502,6 +512,21 @@ func c03(args []string) int {
 			Filters: []FilterSpec{{Send: true, DelayMs: 30}},
 			Events:  []Event{{AtMs: 40, Kind: "upresp", K: 0, Status: 503}}},
 	)
+	// an upstream reset after the response to the client has started, in every later phase: after the headers (body / body +
+	// trailers to come), after the data (trailers to come); each reason; with filters; a later client disconnect
+	for _, on := range []string{"hdr", "data"} {
+		for _, why := range []string{"termination", "remotereset", "connfailed"} {
+			for _, fl := range []string{"", "http"} {
+				sp := &Spec{Flavour: fl, Route: "forward", NHosts: 2, RouteGlobalMs: 3 * slot, RetryOn: r0(why), NumRetries: 1, ResetUpOn: on, ResetUpReason: why,
+					Events: []Event{{AtMs: slot, Kind: "upresp", K: 0, Status: 200, Data: true, Trailers: on == "data"}}}
+				specs = append(specs, sp)
+				sp2 := *sp
+				sp2.Filters = []FilterSpec{{Phase: 0}, {Send: true}}
+				sp2.Events = []Event{{AtMs: slot, Kind: "upresp", K: 0, Status: 200, Data: true, Trailers: true}, {AtMs: 2 * slot, Kind: "downreset", Reason: "termination"}}
+				specs = append(specs, &sp2)
+			}
+		}
+	}
 	// the downstream sender fails: every reply kind x every sender call
 	specs = append(specs, genSenderErr()...)
 	jobs := make([]*histJob, len(specs))
@@ -515,6 +540,8 @@ func c03(args []string) int {
 	}
 	return finishProxy(run, jobs, c03Finder, plainSpec)
 }
+
+func r0(why string) bool { return why != "remotereset" }
 
 // the one trivial history: a plain request answered 2xx, nothing else happening
 func plainSpec(sp *Spec) bool {
